@@ -223,6 +223,8 @@ func checkC04(c *Ctx) {
 		c.checkMergeRight("O3 overlay-order", merge)
 	}
 	c.checkKeyWriterPrecedence("O3 overlay-order")
+	// names and tags are delivered byte for byte, so the identity key must be built byte for byte too
+	c.checkKeyBytesFaithful("O3 byte-faithful-key")
 
 	// ---- O4 copy-on-ingress / immutability ---------------------------------------------------------
 	c.checkTagsIngress("O4 copy-on-ingress", merge, copySan)
